@@ -134,6 +134,7 @@ class Repo:
                 self._index_module(m)
             for c in self.classes.values():
                 c.bases = [self._resolve_base(c, b) for b in c.base_exprs]
+            self.alpha_renamed = self._alpha()
         finally:
             # the parsed trees live for the whole run: keep them out of
             # every later collection
@@ -141,6 +142,32 @@ class Repo:
             if was:
                 gc.enable()
         self._subclasses: Optional[Dict[str, Set[str]]] = None
+
+    def _alpha(self) -> int:
+        """Rename locals back to the names the rules were written against
+        (sa/alpha.py); only modules whose source differs from the recorded
+        baseline are looked at."""
+        if os.environ.get('VERIF_NO_ALPHA'):
+            return 0
+        from . import alpha
+        base = alpha.baseline()
+        mods = base.get('__modules__', {})
+        n = 0
+        for m in self.modules.values():
+            if getattr(m, 'shared', False):
+                continue
+            rel = m.rel()
+            if mods.get(rel) == hashlib.sha1(m.src.encode()).hexdigest():
+                continue
+            fs = {f.qualname: f for f in self._funcs_of(m)
+                  if f.parent is None}
+            keys = alpha.stable_keys(fs)
+            for q, f in fs.items():
+                n += alpha.canonicalise_function(keys[q], f.node)
+        if n:
+            # derived per-tree memo tables were not built yet at this point
+            pass
+        return n
 
     # ------------------------------------------------------------------
     def _load_tree(self, top: str) -> None:
@@ -167,6 +194,7 @@ class Repo:
                     elif self._base is not None and rel in self._base.by_path:
                         bm = self._base.by_path[rel]
                         m = Module(name, path, bm.src, bm.tree, is_pkg)
+                        m.shared = True
                         self.modules[name] = m
                         self.by_path[rel] = m
                         continue
